@@ -81,6 +81,20 @@ def shrink_case(case, still_fails, budget=60):
     return best
 
 
+def cases_from_pairs(pairs, rng, src):
+    out = []
+    for term, value in pairs:
+        try:
+            with warnings.catch_warnings():
+                warnings.simplefilter('ignore')
+                b = terms.build(term, rng)
+                terms.verify(term, b.py)
+            out.append(convcases.Case(term, b, value, src))
+        except terms.Unsupported:
+            pass
+    return out
+
+
 def run(ctx, out, prop, monitor, cfg=None, corr_label='corr_convert', extra_cases=None, sizes=None, focus=None, twins=False):
     """monitor(case) -> list of (signature, what, replay_extra) for property failures on pane itself."""
     rng = random.Random(ctx['seed'])
@@ -140,7 +154,7 @@ def run(ctx, out, prop, monitor, cfg=None, corr_label='corr_convert', extra_case
     for e in errs[:2]:
         out.violation(f'{prop}:corr:shard-error', 'correspondence shard failed: ' + e[:600],
                       {'correspondence': corr_label, 'error': e[:2000]}, no_input=True)
-    if bad and not any(not v['no_input'] for v in out.violations):
+    if bad and not out.has_unlisted_input():
         c = bad[0]
         rep = c.describe()
         rep['correspondence'] = corr_label
